@@ -100,6 +100,9 @@ def gen_cases(tier, seed):
             case["mid"] = {"costs": [mrng.choice((1.5, 2.5, 4.5, 9.5, 30.5)) for _ in range(mrng.randint(1, 3))],
                            "perc": mrng.choice((50, 100, 100)),
                            "limits": sorted(mrng.sample(range(1, 40), mrng.choice((1, 1, 2))))}
+            if case["universe"] == "words" and mrng.random() < 0.3:
+                # keeps expanding verified classes: the work must not depend on when it was polled
+                case["expand_verified"] = True
         case.update(id=produced, N=N[tier])
         produced += 1
         yield case
@@ -151,31 +154,36 @@ def run_mid(case, cx, words_universe):
     if words_universe and outcome == "spec":
         searchlib.check_enumeration(spec, case["cls"], case["N"], mech="C17:final-specification-wrong-count")
         cx.count("resume.final_specs_judged")
-    if case["db"].startswith("forest") and not case.get("expand_verified"):
+    keep_verified = bool(case.get("expand_verified")) and not iterative and outcome != "interrupted"
+    if (case["db"].startswith("forest") and not case.get("expand_verified")) or keep_verified:
         # Under the forest database "verified" means productive, which only depends on the rules
         # inserted so far - not on when has_specification was polled.  The universe explored up
         # to the moment the specification is found is then the same however the search was
         # sliced or interrupted: drain both searchers and compare what they know.
+        # A search that keeps expanding verified classes (expand_verified=True) does the same
+        # work whenever it was polled or interrupted, under every database.
         for srch in (s, ref.s):
             for _ in range(3000):
                 try:
                     wp = next(srch.classqueue)
                 except StopIteration:
                     break
-                if not srch.ruledb.is_verified(wp.label):
+                if keep_verified or not srch.ruledb.is_verified(wp.label):
                     srch._expand(srch.classdb.get_class(wp.label), wp.label, wp.strategies, wp.inferral)
         # compared up to the numbering of labels: extracting the specification labels classes
         # on its own (it re-applies strategies), and the two runs extract at different moments
         def rules_by_class(srch):
             d = digest(srch)
             name = d["classes"]
-            return {(name[k[0]], tuple(name[c] for c in k[1]), tuple(k[2]), k[3]) for k in d["keys"]}
+            return {(name[k[0]], tuple(name[c] for c in k[1])) + tuple(tuple(x) if isinstance(x, (list, tuple)) else x
+                                                                       for x in k[2:]) for k in d["keys"]}
 
         ra, rr = rules_by_class(s), rules_by_class(ref.s)
         cx.count("resume.forest_universes_compared")
         if ra != rr:
             cx.violation("C17:interrupted-search-explores-another-universe",
-                         f"after draining, the rules differ (forest database): only the interrupted search has "
+                         f"after draining, the rules differ ({case['db']} database, expand_verified="
+                         f"{bool(case.get('expand_verified'))}): only the interrupted search has "
                          f"{sorted(ra - rr)[:2]}, only the uninterrupted one {sorted(rr - ra)[:2]}", None)
     return {"nontrivial": interruptions >= 1 and len(st.packets) >= 6, "fingerprint": fp(case)}
 
